@@ -112,6 +112,9 @@ class Pool:
         # (the integer image is as large as the float one: masks of integer type - annuli, compounds - lie fully inside it)
         self.images = [nrng.normal(0, 1, (int(cr[1]) + 90, int(cr[0]) + 90)), nrng.integers(1, 9, (int(cr[1]) + 90, int(cr[0]) + 90)).astype(np.int32),
                        nrng.normal(0, 1, (int(cr[1]) + 90, int(cr[0]) + 90)) * u.Jy]
+        # a masked image that carries its own fill value (bad pixels flagged by the caller)
+        self.images.append(np.ma.MaskedArray(nrng.normal(0, 1, (int(cr[1]) + 20, int(cr[0]) + 20)), mask=nrng.random((int(cr[1]) + 20, int(cr[0]) + 20)) < 0.05,
+                                             fill_value=-999.0))
         self.coords = [PixCoord(cr[0] + nrng.uniform(-80, 80, 30), cr[1] + nrng.uniform(-80, 80, 30)),
                        PixCoord(float(cr[0]) + 1.5, float(cr[1]) - 2.25),
                        PixCoord(cr[0] + nrng.uniform(-80, 80, (3, 4)), cr[1] + nrng.uniform(-80, 80, (3, 4)))]
@@ -451,7 +454,9 @@ def do_op(pool, op):
                 m = pix.to_mask(mode='center')
             except NotImplementedError as e:
                 return name, e
-            img = pool.images[op['j'] % 3]
+            img = pool.images[op['j'] % 4]
+            if op['j'] % 4 == 3:
+                pool.notes['mask-applied-to-masked-image'] += 1
             return name, (m.to_image(img.shape), m.cutout(img, fill_value=prng.choice([0, np.nan]), copy=prng.random() < 0.5),
                           m.multiply(img), m.get_values(img))
         if name == 'pixcoord':
